@@ -757,6 +757,16 @@ def _locks_pool(c):
     return False
 
 
+def no_try_lock(ctx, facts):
+    """Hand-back, registration and cancellation take the pool lock with the blocking lock(): a try_lock that fails under
+    contention would silently skip them (marker leak / connection not registered)."""
+    users = [c for c in facts.call_sites_of("client::pool::PoolRef::try_lock") if not c.fn.nkey.startswith("client::pool::PoolRef::")]
+    users += [c for g in facts.fns.values() if g.nkey.startswith(("client::pool", "<client::pool")) and g.nkey != "client::pool::PoolRef::try_lock" and not g.nkey.startswith("client::pool::PoolRef::try_lock")
+              for c in g.calls() if c.matches(r"lock_api::(mutex::)?Mutex.*::try_lock(_arc|_for|_until)?$") and "PoolInner<" in (c.t.get("argtys") or [""])[0]]
+    ctx.check(not users, "pool|no-try_lock", "the pool is locked only with blocking lock(): no hand-back / cancel / registration can be skipped under contention",
+              "the pool is locked with try_lock in %s: under contention the guarded step is silently skipped" % sorted({c.fn.nkey for c in users}), users[0].where() if users else None)
+
+
 def P16(ctx, facts):
     direct = set()
     for g in facts.fns.values():
@@ -824,6 +834,7 @@ def P16(ctx, facts):
             ctx.check(not bad, "%s|region-%s" % (g.nkey, nm), "no re-entrant lock, lock-taking drop or await inside the pool-lock region",
                       "; ".join(bad[:3]), g.where())
     ctx.floor("lock-regions", n_regions, 8, "pool-lock regions examined")
+    no_try_lock(ctx, facts)
     # lock order inner -> keys: keys is locked only in Pool::checkout
     for g in facts.fns.values():
         for c in g.calls():
